@@ -111,6 +111,8 @@ pub mod types;
 pub mod update;
 mod walk;
 mod zone;
+#[cfg(feature = "verif-hooks")]
+pub mod verif_sync;
 
 pub use self::answer::{Answer, AnswerAuthority, AnswerContent};
 pub use self::in_memory::ZoneBuilder;
